@@ -275,10 +275,10 @@ theorem cplx_sub {G : List Nat} {bd : Nat} (hbd : bd < G.length) (h2 : dimAt G b
       rw [dimAt_delAt _ _ (by omega), if_neg (by omega), show i - 1 + 1 = i by omega] at this
       simpa [c1, c2] using this
 
-theorem cplx_refines {α : Type} [Pairing α] (R O : Arr α) (iq : Bool) (bd : Nat) (ts : List NSlice)
+theorem cplx_refines {α : Type} [Pairing α] (R O : Arr α) (ord : COrd) (bd : Nat) (ts : List NSlice)
     (hbd : bd ≤ ts.length) (ih : Arr.Equiv R (O.select (insAt bd ⟨0, some 2, 1⟩ ts))) :
-    Arr.Equiv (R.pairUp iq bd) ((O.pairUp iq bd).select ts) := by
-  have hsh : (R.pairUp iq bd).shape = ts.map NSlice.count := by
+    Arr.Equiv (R.pairUp ord bd) ((O.pairUp ord bd).select ts) := by
+  have hsh : (R.pairUp ord bd).shape = ts.map NSlice.count := by
     show delAt bd R.shape = _
     rw [ih.1]
     show delAt bd ((insAt bd _ ts).map NSlice.count) = _
@@ -319,10 +319,8 @@ theorem cplx_refines {α : Type} [Pairing α] (R O : Arr α) (iq : Bool) (bd : N
     rw [ih.2 _ (hin k hk0 hk2)]
     show O.get _ = _
     rw [insAx_selIdx _ _ hbd]
-  show (if iq then Pairing.pair (R.get (insAx bd 0 idx)) (R.get (insAx bd 1 idx))
-      else Pairing.pair (R.get (insAx bd 1 idx)) (R.get (insAx bd 0 idx))) =
-    (if iq then Pairing.pair (O.get (insAx bd 0 (selIdx ts idx))) (O.get (insAx bd 1 (selIdx ts idx)))
-      else Pairing.pair (O.get (insAx bd 1 (selIdx ts idx))) (O.get (insAx bd 0 (selIdx ts idx))))
+  show comb ord (R.get (insAx bd 0 idx)) (R.get (insAx bd 1 idx)) =
+    comb ord (O.get (insAx bd 0 (selIdx ts idx))) (O.get (insAx bd 1 (selIdx ts idx)))
   rw [hget 0 (by decide) (by decide), hget 1 (by decide) (by decide)]
 
 /-! ### subset: kept and squeezed axes, composition of the subset definition with the subscript -/
